@@ -184,7 +184,7 @@ func c17R3(c *Ctx, rule string) {
 				continue
 			}
 			n++
-			construct := fmt.Sprintf("pair insert sessions@%s / delete activeUsers@%s", shortFn(i.fn), shortFn(d.fn))
+			construct := fmt.Sprintf("pair insert sessions@%s / delete activeUsers@%s", shortFn(c.P.ownerAnchor(i.fn)), shortFn(c.P.ownerAnchor(d.fn)))
 			var common []string
 			for cl := range i.classes {
 				if d.classes[cl] {
